@@ -278,6 +278,9 @@ func runTplCase(c *Ctx, ast []*tnode, src string, vars map[string]string, label 
 	} else if o.rcode != "" {
 		impl = "err " + o.rcode
 	}
+	if c.Prop == "C10" {
+		reuseTpl(c, tplStep{src, vars}, impl)
+	}
 	if ast != nil {
 		if o.code != "" || o.rcode != "" {
 			c.fail(Failure{Kind: "oracle", Op: op, Impl: impl, Note: fmt.Sprintf("well-formed template %q was rejected", src)})
@@ -403,6 +406,9 @@ func propC10(c *Ctx) {
 }
 
 func replayTpl(c *Ctx, op string) {
+	if replaySeq(c, op) {
+		return
+	}
 	f := strings.Fields(op)
 	if len(f) >= 2 && f[0] == "tpl" {
 		vars := map[string]string{}
